@@ -23,6 +23,8 @@ def gen_cases(seed, tier, n):
         c = tracegen.gen_case(seed, i, tracegen.PROFILES[profs[i % len(profs)]])
         rng = random.Random(seed * 7919 + i)
         c["params"] = {"include_last": rng.random() < 0.5}
+        if i % 6 == 4:
+            tracegen.add_idless_sync_record(c, rng)
         out.append(c)
     return out
 
